@@ -6,6 +6,7 @@ compared exactly; [T] the stripe-key expression is regenerated from the source (
 the executable model.  An oracle written here, independent of the model (exact-rational keys + numpy's stable argsort),
 judges the implementation's output: permutation, stripe order, stability, weights alignment, starts, input unmodified."""
 import itertools
+import re
 from fractions import Fraction
 
 from vlib import coq, coqio
@@ -201,6 +202,73 @@ def impl_cases(payload):
         if sink is not None:
             sink.write(json.dumps(rec) + '\n')
             sink.flush()
+    return out
+
+
+def impl_wide(payload):
+    """Many stripes: npartition beyond 2^15 and 2^16 (stripe indices that do not fit 16 bits), judged in-process against a
+    stable argsort on exact keys.  box = npartition * 2^e, coordinates dyadic, so the key of x is floor(x / 2^e) exactly."""
+    import numba
+    import numpy as np
+    from abacusnbody.analysis import tsc
+    from vlib.implrun import classify
+    out = []
+    for c in payload['cases']:
+        rs = np.random.RandomState(c['seed'])
+        npart, N, scale = c['np'], c['N'], c['scale']
+        dt = np.dtype(c['dtype'])
+        stripes = np.concatenate([rs.randint(0, npart, N - 8), [0, npart - 1, npart - 1, 32767 % npart, 32768 % npart, 65535 % npart,
+                                                                 65536 % npart, npart // 2]])
+        rs.shuffle(stripes)
+        frac = rs.randint(0, 4, N) / 4.0
+        pos = np.zeros((N, 3), dtype=dt)
+        pos[:, :] = rs.randint(0, 64, (N, 3)) / 8.0
+        pos[:, c['coord']] = (stripes + frac) * scale
+        pos[0, c['coord']] = npart * scale          # x = box exactly: last stripe
+        keys = np.minimum(np.floor(pos[:, c['coord']].astype(np.float64) / scale).astype(np.int64), npart - 1)
+        w = (np.arange(N) + 1).astype(dt) if c['weights'] else None
+        order = np.argsort(keys, kind='stable')
+        rec = {'problems': []}
+        try:
+            numba.set_num_threads(c['entry_threads'])
+            ps, st, ws = tsc.partition_parallel(pos.copy(), npart, float(npart * scale), weights=None if w is None else w.copy(),
+                                                coord=c['coord'], nthread=c['nthread'], sort=c['sort'])
+            exp_st = np.searchsorted(keys[order], np.arange(npart + 1), side='left')
+            if st.shape != exp_st.shape or not np.array_equal(st, exp_st):
+                k = int(np.nonzero(np.asarray(st) != exp_st)[0][0]) if st.shape == exp_st.shape else -1
+                rec['problems'].append(f'starts differ from #{{key < k}} (first at k={k}: {int(st[k]) if k >= 0 else st.shape} vs '
+                                       f'{int(exp_st[k]) if k >= 0 else exp_st.shape})')
+            if c['sort']:
+                ok = all(np.array_equal(np.sort(ps[a:b, c['coord']]), ps[a:b, c['coord']]) for a, b in zip(exp_st[:-1], exp_st[1:]) if b - a > 1)
+                same = np.array_equal(ps[np.lexsort(ps.T[::-1])], pos[np.lexsort(pos.T[::-1])])
+                if not ok or not same:
+                    rec['problems'].append('sort=True: a stripe is not sorted, or the rows are not a permutation of the input')
+            else:
+                if not np.array_equal(ps, pos[order]):
+                    j = int(np.nonzero((ps != pos[order]).any(axis=1))[0][0])
+                    rec['problems'].append(f'psort is not the stable stripe order of the input (first at output row {j}: '
+                                           f'{ps[j].tolist()} vs {pos[order][j].tolist()}, stripe {int(keys[order][j])})')
+                if w is not None and not np.array_equal(ws, w[order]):
+                    rec['problems'].append('wsort is not the weights in the stable stripe order')
+            rec['class'] = 'ok'
+        except Exception as e:  # noqa: BLE001
+            rec['class'] = classify(e)
+            rec['problems'].append('raised ' + repr(e)[:160])
+        rec['stripes_above_32767'] = int((keys > 32767).sum())
+        out.append(rec)
+    return out
+
+
+def wide_cases(ctx):
+    rng = ctx.rng
+    out = []
+    nps = [32767, 32768, 32769, 40000, 65536, 65537, 100003] if ctx.quick() else [32767, 32768, 32769, 33000, 40000, 50000, 65535,
+                                                                                 65536, 65537, 70001, 100003, 131073, 300007]
+    for npart in nps:
+        for dtype in ('float32', 'float64'):
+            out.append({'np': npart, 'N': rng.choice([300, 500]), 'scale': rng.choice([1.0, 0.5, 4.0]), 'dtype': dtype,
+                        'coord': rng.randrange(3), 'nthread': rng.choice([1, 2, 3, 5, 16]), 'weights': rng.random() < 0.6,
+                        'sort': rng.random() < 0.25, 'seed': rng.randrange(1 << 30), 'entry_threads': rng.choice([1, 2, 16])})
     return out
 
 
@@ -468,6 +536,28 @@ def explore(ctx):
             owners.append((i, ts))
     counterexamples.sort(key=lambda v: (v['input']['N'], v['input']['np'], v['input']['nthread']))
     counterexamples = counterexamples[:3]
+    # ---- many stripes (indices beyond 16 bits), judged in-process
+    wcases = wide_cases(ctx)
+    wide = {'cases': len(wcases), 'npartition': sorted({c['np'] for c in wcases}), 'rows_in_stripes_above_32767': 0, 'failing': 0}
+    for env, tag in (({'NUMBA_BOUNDSCHECK': '1'}, 'boundscheck'), ({}, 'compiled')):
+        try:
+            wg = ctx.run_impl('harness.c17', 'impl_wide', {'cases': wcases}, env)
+        except RuntimeError as e:
+            ctx.notes.append(f'many-stripes stage ({tag}) died: {str(e)[:200]}')
+            if tag == 'compiled':
+                mismatches.append({'what': 'many-stripes stage died without bounds checking', 'error': str(e)[:300]})
+            continue
+        for c, g in zip(wcases, wg):
+            wide['rows_in_stripes_above_32767'] += g['stripes_above_32767']
+            if g['problems']:
+                wide['failing'] += 1
+                k = 'wide:' + re.sub(r'[^a-z ]+', '', g['problems'][0].split('(')[0])[:50]
+                if k not in seen:
+                    seen.add(k)
+                    counterexamples.append({'key': k, 'what': f'partition_parallel ({tag}) with {c["np"]} stripes: {g["problems"][0]}',
+                                            'input': dict(c, stage='wide'), 'mode': tag, 'impl_result': g,
+                                            'predicate': 'psort == pos[stable_argsort(min(floor(x*np/box), np-1))], wsort likewise, '
+                                                         'starts[k] == #{key < k}'})
 
     if ctx.model_available:
         bad, err = coq.eval_mismatches(ctx.scratch, 'c17', IMPORTS, 'run', terms)
@@ -489,14 +579,16 @@ def explore(ctx):
             'sort on/off and five input styles (dyadic lattice, exact stripe boundaries incl. x = box, few distinct values, '
             'single stripe, descending), plus the full option cube at N=17; every case run compiled, compiled with '
             'NUMBA_BOUNDSCHECK=1 and as py_func with a shuffled prange block order; non-trivial = at least two stripes '
-            'occupied and the input not already in stripe order, distinct by (N, np, nthread, coord, dtype, weights, sort, keys)')
+            'occupied and the input not already in stripe order, distinct by (N, np, nthread, coord, dtype, weights, sort, keys); plus the '
+            'many-stripes stage (npartition around and beyond 2^15 and 2^16, 300-500 rows, compiled and bounds-checked, judged '
+            'in-process against a stable argsort on exact keys)')
     return {
-        'evaluations': len(cases) * 3, 'distinct_nontrivial': len(nontrivial), 'rule': rule,
+        'evaluations': len(cases) * 3 + 2 * len(wcases), 'distinct_nontrivial': len(nontrivial), 'rule': rule,
         'samples': [{'input': cases[i], 'impl': modes['compiled'][i]} for i in (len(cases) // 3, len(cases) - 1)
                     if cases[i]['N'] <= 17][:2] or [{'input': cases[0], 'impl': modes['compiled'][0]}],
         'traces_validated_against_impl': len(terms) if ctx.model_available else 0,
         'exhaustive': False, 'input_distribution': dist, 'mismatches': mismatches, 'counterexamples': counterexamples,
-        'block_boundary_pairs_checked': 0 if tab is None else len(pairs),
+        'block_boundary_pairs_checked': 0 if tab is None else len(pairs), 'many_stripes_stage': wide,
         'float_residual': 'none on the explored inputs: dyadic coordinates and exact inv_pwidth make the key computation exact',
     }
 
@@ -519,6 +611,9 @@ def search(ctx, broken):
 
 def replay(ctx, rec):
     c = rec['input']
+    if c.get('stage') == 'wide':
+        g = ctx.run_impl('harness.c17', 'impl_wide', {'cases': [c]}, {'NUMBA_BOUNDSCHECK': '1'} if rec.get('mode') == 'boundscheck' else {})[0]
+        return bool(g['problems']), {'input': c, 'impl_result': g}
     exp = oracle(c)
     got = {'compiled': run_mode(ctx, 'r_compiled', 'impl_cases', [c])[0],
            'boundscheck': run_mode(ctx, 'r_boundscheck', 'impl_cases', [c], {'NUMBA_BOUNDSCHECK': '1'})[0],
